@@ -8,3 +8,6 @@ Proof. vm_compute. reflexivity. Qed.
 
 Lemma enc_matches_dec_ok : enc_matches_dec = true.
 Proof. vm_compute. reflexivity. Qed.
+
+Lemma slots_distinct_ok : slots_distinct = true.
+Proof. vm_compute. reflexivity. Qed.
